@@ -128,22 +128,22 @@ theorem step_single {cfg : Config} {s : State} (inv : Inv cfg s) (c : Nat) (l : 
       (atom_ok inv (Atom.request (mkCtx s o) c (.obj l) (resp ++ new) hout')).inv
     obtain ⟨ns, ⟨new2, hout2, _⟩, _⟩ := closePeer_ok inv1 c
     refine ⟨new2.reverse, ?_, ?_, ?_⟩
-    · simp only [hok, Bool.false_eq_true, if_false]
+    · simp only [Bool.false_eq_true, if_false]
       exact Atom.close _ c new2 hout2
-    · simp only [hok, Bool.false_eq_true, if_false]
+    · simp only [Bool.false_eq_true, if_false]
       rw [hout2, hout']
       simp [mkCtx]
-    · simp only [hok, Bool.false_eq_true, if_false]
+    · simp only [Bool.false_eq_true, if_false]
       exact closePeer_gone _ c
   · left
-    simp only [hok, if_true]
+    simp only [if_true]
     rw [hout']
     simp [mkCtx]
 
 /-! ## refused add -/
 
 /-- the conclusion of `no_spurious_on_rollback` for a handler result -/
-def Rollback (cfg : Config) (x : Ctx) (r : Ctx × Option Json) : Prop :=
+def Rollback (_cfg : Config) (x : Ctx) (r : Ctx × Option Json) : Prop :=
   r.1.st = x.st ∧ ∃ ns, Emits x r.1 ns ∧
     ∀ c pg f, Alive x.st c pg f →
       (pick c f.fid ns = [] ∨
@@ -278,5 +278,24 @@ theorem unfetchReq_removes {cfg : Config} {x : Ctx} (inv : Inv cfg x.st) {p : Pe
     have := fetch_unique (inv.fetches.fidDistinct q hp) hfm hg'm hsame
     subst this
     simp at hne
+
+/-! ## what a subscriber received -/
+
+/-- the observations without the sends to `c` that failed -/
+def recvd (c : Nat) (obs : List Obs) : List Obs :=
+  obs.filter (fun o => match o with | .send c' _ ok => c' != c || ok | _ => true)
+
+theorem recvd_eq_of_healthy {c : Nat} {obs : List Obs}
+    (h : ∀ j b, Obs.send c j b ∈ obs → b = true) : recvd c obs = obs := by
+  unfold recvd
+  rw [List.filter_eq_self]
+  intro o ho
+  cases o with
+  | send c' j b =>
+    by_cases hc : c' = c
+    · subst hc
+      simp [h j b ho]
+    · simp [hc]
+  | _ => rfl
 
 end Cjet.Daemon.C01
